@@ -66,15 +66,20 @@ func (q *queue) Ack(prefix string, pkt packet.Packet) error {
 	switch p := pkt.(type) {
 	case Ackers:
 		k := hashKey(prefix, p.GetMessageId())
+		// an acknowledgement of the wrong type must leave the entry in flight
+		current, ok := q.msg.Get(k)
+		if !ok {
+			return ErrWrongMID
+		}
+		if state := current.(message).state; state != pkt.Type() {
+			return fmt.Errorf("unexpected packet type: wanted %v, got %v", state, pkt.Type())
+		}
 		v, ok := q.msg.Delete(k)
 		if !ok {
 			return ErrWrongMID
 		}
 		msg := v.(message)
 		q.timeouts.Delete(k, msg.deadline)
-		if msg.state != pkt.Type() {
-			return fmt.Errorf("unexpected packet type: wanted %v, got %v", msg.state, pkt.Type())
-		}
 		msg.callback(false, msg.pkt, pkt)
 		return nil
 	default:
